@@ -212,8 +212,14 @@ impl VM {
                 }),
                 pos,
             )?;
+            return Ok(());
         }
-        Ok(())
+        // Only primitives can be cast; anything else is a type error rather than
+        // silently leaving the stack without a result.
+        Err(Error::new(
+            format!("Cannot cast a {} to {}", val.type_name(), t).into(),
+            pos,
+        ))
     }
     fn op_cast(&mut self, t: CastType) -> Result<(), Error> {
         let (val, pos) = self.pop()?;
